@@ -140,6 +140,11 @@ func scenarioC14(r *Run) {
 	base := takeLedger(r)
 
 	pol := &NetPolicy{ChunkBias: c.Pick(2, "chunk-bias")}
+	// in one run of four (not over DNS) every lock operation is a seeded scheduling point while the connections of a batch run
+	yieldy := !CarrierIsDNS(carrier) && c.Chance(1, 4, "scheduling-points")
+	if yieldy {
+		r.Count("runs_with_scheduling_points")
+	}
 	total := 0
 	batch := func(count int) bool {
 		conns := make([]*LConn, count)
@@ -205,7 +210,11 @@ func scenarioC14(r *Run) {
 			}
 			return true
 		}
+		if yieldy {
+			r.YieldsOn("yield-seed")
+		}
 		out := r.Drive(pol, goal, extra, 2*time.Minute, 60*time.Minute)
+		r.YieldsOff()
 		if out == Aborted {
 			return false
 		}
